@@ -64,7 +64,7 @@ def extra(ctx, sc, r):
 def scenarios(ctx):
     rnd = ctx.rng("c15")
     scs = []
-    maxlen = 5 if ctx.thorough() else 3
+    maxlen = 5 if ctx.thorough() else 4
     alpha = list(OUTCOMES)
     for n in range(1, maxlen + 1):
         for seq in itertools.product(alpha, repeat=n):
